@@ -9,7 +9,7 @@ import numpy
 from discopy.quantum import gates, circuit
 from discopy.quantum.circuit import Measure, Encode, Discard, MixedState, bit, qubit, Id
 from discopy.quantum.gates import Rx, Ry, Rz, ClassicalGate, Bits, Ket, scalar
-from rtc import qsim, cqsim
+from rtc import qsim, cqsim, common
 from rtc.report import Report
 
 SHARDED = True
@@ -95,6 +95,17 @@ def check(rep, c):
         m = numpy.array(c.measure(), dtype=float) if not c.dom else None
         if m is not None and m.shape == probs.shape and not numpy.allclose(m, probs, atol=1e-9):
             rep.fail('C12:measure.readoff', 'measure() differs from the distribution of the evaluation', r)
+    # "measuring gives the squared magnitudes of the amplitudes": a closed pure circuit ending on qubits only
+    if not c.dom and not c.is_mixed and c.cod and c.cod == qubit ** len(c.cod):
+        amps = numpy.array(c.eval().array, dtype=complex)
+        got_m = common.outcome(lambda: numpy.array(c.measure(), dtype=complex))
+        rep.count('measure.pure')
+        if got_m[0] != 'ok' or got_m[1].shape != amps.shape or not numpy.allclose(got_m[1], abs(amps) ** 2, atol=1e-9):
+            rep.fail('C12:measure.born', 'measure() of a pure circuit is not the squared magnitudes of its amplitudes: %r vs %r'
+                     % (got_m[1] if got_m[0] == 'ok' else got_m, abs(amps) ** 2), r)
+        via = common.outcome(lambda: numpy.array((c >> circuit.Measure(len(c.cod))).eval().array, dtype=complex))
+        if via[0] == 'ok' and via[1].shape == amps.shape and not numpy.allclose(via[1], abs(amps) ** 2, atol=1e-9):
+            rep.fail('C12:measure.born', 'c >> Measure evaluates to something else than the squared magnitudes', r)
 
 
 def run(tier, seed=0, shard=(0, 1)):
